@@ -57,6 +57,30 @@ Theorem C16_tables_key : forall x, x < 256 ->
 Proof. exact key_tables. Qed.
 Print Assumptions C16_tables_key.
 
+(* all fourteen tables at once *)
+Theorem C16_tables : forall x, x < 256 ->
+  let s := sbox x in let si := inv_sbox x in
+  tbl S_tbl x = s /\ tbl Si_tbl x = si /\ tbl Si_tbl s = x /\
+  tbl T1_tbl x = pack4 (gmul 2 s) s s (gmul 3 s) /\ tbl T2_tbl x = pack4 (gmul 3 s) (gmul 2 s) s s /\
+  tbl T3_tbl x = pack4 s (gmul 3 s) (gmul 2 s) s /\ tbl T4_tbl x = pack4 s s (gmul 3 s) (gmul 2 s) /\
+  tbl T5_tbl x = pack4 (gmul 14 si) (gmul 9 si) (gmul 13 si) (gmul 11 si) /\
+  tbl T6_tbl x = pack4 (gmul 11 si) (gmul 14 si) (gmul 9 si) (gmul 13 si) /\
+  tbl T7_tbl x = pack4 (gmul 13 si) (gmul 11 si) (gmul 14 si) (gmul 9 si) /\
+  tbl T8_tbl x = pack4 (gmul 9 si) (gmul 13 si) (gmul 11 si) (gmul 14 si) /\
+  tbl U1_tbl x = pack4 (gmul 14 x) (gmul 9 x) (gmul 13 x) (gmul 11 x) /\
+  tbl U2_tbl x = pack4 (gmul 11 x) (gmul 14 x) (gmul 9 x) (gmul 13 x) /\
+  tbl U3_tbl x = pack4 (gmul 13 x) (gmul 11 x) (gmul 14 x) (gmul 9 x) /\
+  tbl U4_tbl x = pack4 (gmul 9 x) (gmul 13 x) (gmul 11 x) (gmul 14 x).
+Proof.
+  intros x Hx. cbv zeta.
+  destruct (sbox_tables x Hx) as (A1 & A2 & _ & A4 & _).
+  destruct (enc_tables x Hx) as (B1 & B2 & B3 & B4).
+  destruct (dec_tables x Hx) as (C1 & C2 & C3 & C4).
+  destruct (key_tables x Hx) as (D1 & D2 & D3 & D4).
+  repeat (split; [assumption|]). assumption.
+Qed.
+Print Assumptions C16_tables.
+
 Theorem C16_tables_rcon :
   (10 <= length rcon_tbl)%nat /\ forall i, (i < length rcon_tbl)%nat -> nth i rcon_tbl 0 = xpow i.
 Proof. exact rcon_table. Qed.
